@@ -28,7 +28,7 @@ register(
         "GtModel.C02.xml_tail_ignored",
         "GtModel.C02.xml_text_whitespace_charged",
     ],
-    streams=["script", "scriptx", "scriptxml", "cli", "matrix", "script_O"],
+    streams=["script", "scriptx", "scriptxml", "cli", "matrix", "script_O", "numeq"],
     assumptions=[
         "objects of the compared documents have distinct keys (Doc.distinctKeys; what json/yaml parsers deliver); "
         "without it graphtage's DictNode equality is multiset equality of pairs and the statement is not claimed",
